@@ -178,6 +178,9 @@ inline void set_cpu_budget_ms(long ms)
     itimerval it{};
     it.it_value.tv_sec = ms / 1000;
     it.it_value.tv_usec = (ms % 1000) * 1000;
+    // keep firing (every 200 ms) so that a tick that lands outside a guarded
+    // region is not lost
+    if(ms) it.it_interval.tv_usec = 200000;
     setitimer(ITIMER_VIRTUAL, &it, nullptr);
 }
 
@@ -205,7 +208,7 @@ __attribute__((noinline)) Outcome guarded(F&& f, long cpu_ms = 0)
 {
     auto& a = arena();
     a.pending = Outcome{};
-    if(sigsetjmp(a.jb, 1) == 0)
+    if(sigsetjmp(a.jb, 0) == 0) // handlers run with SA_NODEFER and an empty mask: nothing to restore
     {
         if(cpu_ms) set_cpu_budget_ms(cpu_ms);
         a.armed = 1;
